@@ -154,17 +154,25 @@ class CoqLock:
 
 def coq_make(targets=(), timeout=3000):
     '''(Re)build the requested .vo targets (all when empty) with a full .vo
-    build.  Returns (ok, output).'''
+    build.  Returns (ok, output).  Only the generation of _CoqProject is
+    serialised; every invocation uses its own generated makefile so that
+    several checks can build at the same time.'''
+    mk = f'Makefile.{os.getpid()}'
     with CoqLock():
-        changed = gen_coq_project()
-        if changed or not os.path.exists(os.path.join(COQ, 'Makefile')):
-            code, out = _run(['coq_makefile', '-f', '_CoqProject', '-o', 'Makefile'],
-                             cwd=COQ, timeout=120)
-            if code != 0:
-                return False, out
-        cmd = ['timeout', str(timeout), 'make', f'-j{NPROC}'] + list(targets)
+        gen_coq_project()
+        code, out = _run(['coq_makefile', '-f', '_CoqProject', '-o', mk], cwd=COQ, timeout=120)
+    try:
+        if code != 0:
+            return False, out
+        cmd = ['timeout', str(timeout), 'make', '-f', mk, f'-j{NPROC}'] + list(targets)
         code, out = _run(cmd, cwd=COQ, timeout=timeout + 30)
         return code == 0, out
+    finally:
+        for name in (mk, mk + '.conf', f'.{mk}.d'):
+            try:
+                os.unlink(os.path.join(COQ, name))
+            except OSError:
+                pass
 
 
 HYGIENE_RE = re.compile(
